@@ -156,8 +156,12 @@ static inline int sline_putchar(struct sline *sl, char c)
 
 static inline int sline_newdata(struct sline *sl, const char *data, int len)
 {
-    if (len > sline_avail(sl))
-        len = sline_avail(sl);
+    /* like sline_putchar: at most cap - 1 characters, buf[len] is kept for the
+       terminator sline_getline() writes */
+    if (len > sline_avail(sl) - 1)
+        len = sline_avail(sl) - 1;
+    if (len < 0)
+        len = 0;
 
     if (sl->cursor != sl->len)
     {
